@@ -77,9 +77,11 @@ boost::optional<H5Group> GroupHDF5::findEntityGroup(const nix::Identity &ident) 
 
     if (g && haveName && haveId) {
         std::string ename;
+        std::string eid;
         g->getAttr("name", ename);
+        g->getAttr("entity_id", eid);
 
-        if (ename != iname) {
+        if (ename != iname || eid != iid) {
             return boost::optional<H5Group>();
         }
     }
